@@ -96,6 +96,11 @@ func (s *rpcServer) processEthSendTransaction(ctx context.Context, rpcReq *rpcba
 		if rpcErr != nil {
 			return rpcbackend.RPCErrorResponse(rpcErr.Error(), rpcReq.ID, rpcbackend.RPCCodeInternalError), rpcErr.Error()
 		}
+		if txn.Nonce == nil {
+			// a null result is not a nonce: do not sign and submit with an implied nonce of zero
+			err := i18n.WrapError(ctx, fmt.Errorf("eth_getTransactionCount returned no nonce"), signermsgs.MsgInvalidTransaction)
+			return rpcbackend.RPCErrorResponse(err, rpcReq.ID, rpcbackend.RPCCodeInternalError), err
+		}
 	}
 
 	// Sign the transaction
